@@ -662,8 +662,15 @@ class _Positional(ast.NodeTransformer):
             return node
         prog = self.f.prog
         cal = prog.callee(self.f, node)
-        g = prog.funcs.get(cal[1]) if cal[0] == 'func' else \
-            prog.lookup_method(prog.classes[cal[1]], '__init__')
+        if cal[0] == 'func':
+            g = prog.funcs.get(cal[1])
+        elif cal[0] == 'class':
+            g = prog.lookup_method(prog.classes[cal[1]], '__init__')
+        else:
+            cands = prog.methods_named(cal[1])
+            g = cands[0] if cands else None
+        if g is None:
+            return node
         params = [p_ for p_ in g.params if p_ not in ('self', 'cls')]
         given = dict(bound)
         args, rest = [], []
@@ -1287,6 +1294,8 @@ def value_leaves(f, e, through=(), depth=6, _seen=None):
         return []       # x = wrap(x): nothing new comes from the cycle
     if isinstance(e, ast.Name) and e.id not in f.params:
         binds = stores_to(f, e.id)
+        if binds and all(v is None for _, v in binds):
+            return [e]      # a loop / with variable: the name is the leaf
         if binds:
             out = []
             for _, v in binds:
